@@ -2724,6 +2724,26 @@ impl<T: Storage> Raft<T> {
             return false;
         }
 
+        // The snapshot replaces the configuration at once, but the application may still be
+        // applying membership changes it was handed before (asynchronous apply): its
+        // `apply_conf_change` calls would then act on the snapshot's configuration. Ignore
+        // the snapshot until they are applied; the leader will send it again.
+        let low = match self.raft_log.unstable.maybe_first_index() {
+            Some(idx) => idx,
+            None => cmp::max(self.raft_log.applied + 1, self.raft_log.first_index()),
+        };
+        let high = self.raft_log.committed + 1;
+        let ctx = GetEntriesContext(GetEntriesFor::TransferLeader);
+        if self.has_unapplied_conf_changes(low, high, ctx) {
+            warn!(
+                self.logger,
+                "ignored snapshot since there are still pending configuration changes to apply";
+                "snapshot_index" => snap_index,
+                "snapshot_term" => snap_term
+            );
+            return false;
+        }
+
         self.raft_log.restore(snap);
         let cs = self
             .r
